@@ -407,6 +407,45 @@ Ltac rstep2 inp fl :=
   | _ => rstep
   end.
 
+Lemma fnlike_len v : name_is_function_like v = true -> 4 <= len v.
+Proof.
+  unfold name_is_function_like. intros H.
+  repeat match type of H with
+         | _ || _ = true => apply orb_true_iff in H; destruct H as [H|H]
+         end;
+    apply to_upper_cmp_len in H;
+    match type of H with len ?l <= _ => let n := eval vm_compute in (len l) in change (len l) with n in H end; lia.
+Qed.
+
+Lemma step_ok_mono inp fl b b' r : step_ok inp fl b r -> b <= b' -> step_ok inp fl b' r.
+Proof. destruct r; unfold step_ok; intros [A B] H; split; try assumption; lia. Qed.
+
+Lemma like_len v : to_upper_cmp (bs "LIKE") v || to_upper_cmp (bs "NOT LIKE") v = true -> 4 <= len v.
+Proof.
+  intros H. apply orb_true_iff in H. destruct H as [H|H]; apply to_upper_cmp_len in H;
+    match type of H with len ?l <= _ => let n := eval vm_compute in (len l) in change (len l) with n in H end; lia.
+Qed.
+
+Ltac eval_ranks :=
+  repeat match goal with
+         | |- context [rank ?c] =>
+             let v := eval vm_compute in (rank c) in
+             lazymatch v with
+             | Z0 => change (rank c) with v
+             | Zpos _ => change (rank c) with v
+             end
+         end.
+
+(* a leaf that re-classifies one window token (same window length) *)
+Ltac recat_phi :=
+  rewrite phi_upd by reflexivity; unfold phi;
+  match goal with
+  | N : nth_error ?w ?i = Some ?x |- context [rank_sum (replace_nth ?w ?i _)] =>
+      rewrite (rank_sum_replace _ _ _ _ N); cats;
+      repeat match goal with H : t_cat x = _ |- _ => rewrite H end
+  end;
+  unfold set_cat; cbn [t_cat]; eval_ranks; wlens; clear_bool; lia.
+
 (* a guarded boolean computation `if g then m else Ok false`: all the proof keeps is
    that a true answer implies the guard (and a fact P about the body) *)
 Lemma wp_guarded (g : bool) (m : res bool) (P : Prop) :
@@ -441,5 +480,80 @@ Proof.
   rstep; [repeat rstep; shrink_leaf|]. rstep; [repeat rstep; shrink_leaf|].
   guarded ltac:(unary_total b); [repeat rstep; shrink_leaf|].
   guarded ltac:(unary_total b); [repeat rstep; shrink_leaf|].
-  (*HERE*)
-Abort.
+  apply wp_bind. eapply wp_conseq; [eapply merge_spec; eassumption|]. intros [a'|] Hm.
+  { destruct Hm as [Hm1 Hm2]. pose proof (mtok_wtok (mark f) a' Hm1) as Ha'. repeat rstep. shrink_leaf. }
+  clear Hm.
+  (* IF *)
+  guarded ltac:(repeat (rstep2 inp fl); intros; exact I).
+  { repeat rstep. unfold step_ok; split.
+    - apply finv_upd; [assumption|reflexivity|reflexivity|reflexivity|forall_w|wside|wside].
+      apply wtok_set_plain; [assumption|reflexivity|discriminate|discriminate|discriminate|discriminate].
+    - recat_phi. }
+  (* function-like names *)
+  guarded ltac:(rewrite (val_prefix_ok _ a (proj1 Ha)); cbn [bind]; apply wp_Ok; intros E; exact E).
+  { apply fnlike_len in P. repeat rstep. unfold step_ok; split.
+    - apply finv_upd; [assumption|reflexivity|reflexivity|reflexivity|forall_w|wside|wside].
+      apply wtok_set_fn; [assumption|]. destruct Ha as (L & _). lia.
+    - cats. match goal with H : _ || _ = true |- _ => apply orb_true_iff in H; destruct H as [H|H]; apply cat_is_eq in H end;
+        recat_phi. }
+  (* IN / NOT IN *)
+  guarded ltac:(rewrite (val_prefix_ok _ a (proj1 Ha)); cbn [bind]; apply wp_Ok; intros; exact I).
+  { repeat rstep. unfold step_ok; split.
+    - apply finv_upd; [assumption|reflexivity|reflexivity|reflexivity|forall_w|wside|wside].
+      destruct (cat_is b b_sqli_token_type_left_parenthesis);
+        (apply wtok_set_plain; [assumption|reflexivity|discriminate|discriminate|discriminate|discriminate]).
+    - destruct (cat_is b b_sqli_token_type_left_parenthesis); recat_phi. }
+  (* LIKE / NOT LIKE: no continue, falls out of the switch *)
+  guarded ltac:(rewrite (val_prefix_ok _ a (proj1 Ha)); cbn [bind]; apply wp_Ok; intros E; exact E).
+  { apply like_len in P. apply wp_bind.
+    destruct (cat_is b b_sqli_token_type_left_parenthesis).
+    - rstep. eapply wp_conseq.
+      { apply (three_spec inp fl).
+        - apply finv_upd; [assumption|reflexivity|reflexivity|reflexivity|forall_w|wside|wside].
+          apply wtok_set_fn; [assumption|]. destruct Ha as (L & _). lia.
+        - simp_f. wside. }
+      intros r Hr. eapply step_ok_mono; [exact Hr|].
+      assert (X : phi (upd f (f_s f) (replace_nth (f_win f) (Z.to_nat (f_left f)) (set_cat a cF)) (f_left f)) < phi f + 1)
+        by recat_phi. lia.
+    - apply wp_Ok. eapply wp_conseq.
+      { apply (three_spec inp fl).
+        - apply finv_upd; [assumption|reflexivity|reflexivity|reflexivity|assumption|wside|wside].
+        - simp_f. wside. }
+      intros r Hr. eapply step_ok_mono; [exact Hr|]. rewrite phi_upd by reflexivity. unfold phi. lia. }
+  (* sqltype followed by a value *)
+  rstep; [repeat rstep; shrink_leaf|].
+  (* COLLATE name *)
+  rstep.
+  { rstep.
+    - rstep. rstep. eapply wp_conseq.
+      { apply (three_spec inp fl).
+        - apply finv_upd; [assumption|reflexivity|reflexivity|reflexivity|forall_w|wside|wside].
+          apply wtok_set_plain; [assumption|reflexivity|discriminate|discriminate|discriminate|discriminate].
+        - simp_f. wside. }
+      intros r Hr. eapply step_ok_mono; [exact Hr|].
+      assert (X : phi (upd f (f_s f) (replace_nth (f_win f) (Z.to_nat (f_left f + 1))
+                                        (set_cat b b_sqli_token_type_sqltype)) 0) < phi f + 1) by recat_phi.
+      lia.
+    - eapply wp_conseq; [apply (three_spec inp fl); [exact Hinv|wside]|]. intros r Hr; exact Hr. }
+  (* backslash *)
+  rstep.
+  { rstep. rstep.
+    - repeat rstep. unfold step_ok; split.
+      + apply finv_upd; [assumption|reflexivity|reflexivity|reflexivity|forall_w|wside|wside].
+        apply wtok_set_num; [assumption|]. apply cat_is_eq. assumption.
+      + recat_phi.
+    - repeat rstep. shrink_leaf. }
+  rstep; [repeat rstep; shrink_leaf|].
+  rstep; [repeat rstep; shrink_leaf|].
+  (* left brace *)
+  rstep.
+  { rstep.
+    - repeat rstep. unfold step_ok; split.
+      + apply finv_upd; [assumption|reflexivity|reflexivity|reflexivity|forall_w|wside|wside].
+        apply wtok_set_plain; [assumption|reflexivity|discriminate|discriminate|discriminate|discriminate].
+      + simp_f. wside.
+    - repeat rstep. shrink_leaf. }
+  rstep; [repeat rstep; shrink_leaf|].
+  eapply wp_conseq; [apply (three_spec inp fl); [exact Hinv|wside]|]. intros r Hr; exact Hr.
+Qed.
+
